@@ -259,6 +259,52 @@ def run(tier, seed, replay):
                     except Exception as e:
                         v(f"raises:{which}:{method}", f"{cfg}: {type(e).__name__}: {e}"[:240], cfg)
                         continue
+    # ------------------------------------------------------------------ arguments given at the call: a solver built with other arguments and
+    # never used before, run / replayed with args=, gives the trajectory (and the measurement record) of a solver built with
+    # those arguments
+    def make_args(which, method, het, nsc, w):
+        H = qutip.QobjEvo([0.5 * sz, [0.3 * sx, f_t]], args={"w": w})
+        sc = [qutip.QobjEvo([0.6 * sm, f_t], args={"w": w}), 0.25 * sz][:nsc]
+        o = {"method": method, "dt": 0.1, "store_states": True, "store_measurement": "start", "progress_bar": "", "keep_runs_results": True}
+        if which == "sme":
+            return qutip.SMESolver(H, sc_ops=sc, heterodyne=het, c_ops=[0.2 * sx], options=o), rho0
+        return qutip.SSESolver(H, sc_ops=sc, heterodyne=het, options=o), psi0
+    for which, methods in (("sme", sme_methods), ("sse", sse_methods)):
+        for method in methods:
+            for het, nsc in ((False, 1), (True, 2)):
+                cfg = {"eq": which, "method": method, "heterodyne": het, "n_sc": nsc, "args": {"w": 1.4}}
+                try:
+                    with warnings.catch_warnings():
+                        warnings.simplefilter("ignore")
+                        with core.time_limit(240):
+                            sd = int(rng.integers(1 << 30))
+                            sA, st = make_args(which, method, het, nsc, 3.0)
+                            rA = sA.run(st, tl, ntraj=1, seeds=sd, args={"w": 1.4})
+                            sB, _ = make_args(which, method, het, nsc, 1.4)
+                            rB = sB.run(st, tl, ntraj=1, seeds=sd)
+                            dWr = np.asarray(rB.dW[0])
+                            sC, _ = make_args(which, method, het, nsc, 3.0)
+                            try:
+                                rC = sC.run_from_experiment(st, tl, dWr, args={"w": 1.4})
+                            except NotImplementedError:
+                                rC = None
+                except core.CaseTimeout:
+                    raise
+                except Exception as e:
+                    v(f"call-args-raises:{which}:{method}", f"run(args=) / run_from_experiment(args=) raises for {cfg}: {type(e).__name__}: {e}"[:240], cfg)
+                    continue
+                rep.evaluations += 1
+                rep.count("call-time-args")
+                d1 = maxdiff(rA.runs_states[0], rB.runs_states[0])
+                if d1 > 1e-10:
+                    v(f"call-args:run:{which}:{method}", f"run(args=...) on a solver built with other arguments differs from a solver built with these arguments, same seed ({cfg}): {d1:.2e}", cfg)
+                dm_ = np.abs(np.asarray(rA.measurement[0]) - np.asarray(rB.measurement[0])).max()
+                if dm_ > 1e-9:
+                    v(f"call-args:measurement:{which}:{method}", f"the measurement record of run(args=...) differs from that of a solver built with these arguments, same seed and states ({cfg}): {dm_:.2e}", cfg)
+                if rC is not None:
+                    d2 = maxdiff(rC.states, rB.runs_states[0])
+                    if d2 > 1e-10:
+                        v(f"call-args:replay:{which}:{method}", f"run_from_experiment(args=...) on a solver built with other arguments does not reproduce the trajectory of a solver built with these arguments ({cfg}): {d2:.2e}", cfg)
     # ------------------------------------------------------------------ unevenly spaced output times: the reported records stay consistent
     uneven = np.array([0.0, 0.1, 0.15, 0.4, 0.5, 0.8])
     for which, methods in (("sme", sme_methods), ("sse", sse_methods)):
